@@ -44,6 +44,10 @@ type OrderAnalysis struct {
 	Sanitised []string         // targets sorted before they escape (fn:target)
 	Private   int              // constructs with iteration-private targets
 	Returns   map[*Fn]bool     // functions summarised "returns map-ordered"
+	// TaintedFields are struct fields (of receivers / parameters) that hold a
+	// slice in map order when some function returns; ranging over them elsewhere
+	// is a map-ordered source (field-sensitive, object-insensitive).
+	TaintedFields map[*types.Var]bool
 	Findings  []OrderFinding   // escapes
 	Unresolved map[string]bool // interface / func-value calls not followed
 	// SortSanitisers are the sort.Slice-style calls (with a caller-supplied
@@ -177,18 +181,22 @@ func (f *Fn) sanitisesWith(n ast.Node, isTarget func(ast.Expr) bool) (bool, *ast
 
 // AnalyseMapOrder runs engine A over the closure of the roots.
 func (p *Prog) AnalyseMapOrder(roots ...*Fn) *OrderAnalysis {
-	a := &OrderAnalysis{Prog: p, Returns: map[*Fn]bool{}}
+	a := &OrderAnalysis{Prog: p, Returns: map[*Fn]bool{}, TaintedFields: map[*types.Var]bool{}}
 	a.Funcs, a.Unresolved = p.Closure(roots...)
 	// fixed point on the "returns map-ordered" summaries
 	for iter := 0; iter < 6; iter++ {
 		changed := false
 		a.Findings, a.Sanitised, a.Loops, a.Sites, a.Private, a.SortSanitisers = nil, nil, 0, 0, 0, nil
+		nTF := len(a.TaintedFields)
 		for _, f := range a.Funcs {
 			before := a.Returns[f]
 			a.analyseFn(f)
 			if a.Returns[f] != before {
 				changed = true
 			}
+		}
+		if len(a.TaintedFields) != nTF {
+			changed = true
 		}
 		if !changed {
 			break
@@ -197,6 +205,15 @@ func (p *Prog) AnalyseMapOrder(roots ...*Fn) *OrderAnalysis {
 	sort.Slice(a.Findings, func(i, j int) bool { return a.Findings[i].Key() < a.Findings[j].Key() })
 	sort.Strings(a.Sanitised)
 	return a
+}
+
+func (a *OrderAnalysis) isTaintedField(f *Fn, sel *ast.SelectorExpr) bool {
+	if s := f.Info().Selections[sel]; s != nil {
+		if v, ok := s.Obj().(*types.Var); ok && a.TaintedFields[v] {
+			return true
+		}
+	}
+	return false
 }
 
 type taintSeed struct {
@@ -219,6 +236,8 @@ func (a *OrderAnalysis) analyseFn(f *Fn) {
 			return true
 		}
 		if isMapType(info.TypeOf(rs.X)) {
+			loops = append(loops, rs)
+		} else if sel, ok := ast.Unparen(rs.X).(*ast.SelectorExpr); ok && a.isTaintedField(f, sel) {
 			loops = append(loops, rs)
 		} else if call, ok := ast.Unparen(rs.X).(*ast.CallExpr); ok && f.mapOrderedCall(call, a.Returns) {
 			loops = append(loops, rs)
@@ -407,8 +426,8 @@ func (a *OrderAnalysis) scanLoop(f *Fn, g *Graph, outer, rs *ast.RangeStmt, seed
 				}
 				site := g.FactSite(l)
 				site.Node = s
-				_, isIdent := ast.Unparen(l).(*ast.Ident)
-				*seeds = append(*seeds, taintSeed{target: f.RootObj(l), elem: !isIdent, path: types.ExprString(l), from: loopEnd(g, outer, site), loop: outer.Pos()})
+				_, isIndex := ast.Unparen(l).(*ast.IndexExpr)
+				*seeds = append(*seeds, taintSeed{target: f.RootObj(l), elem: isIndex, path: types.ExprString(l), from: loopEnd(g, outer, site), loop: outer.Pos()})
 			}
 		case *ast.ReturnStmt:
 			a.Sites++
@@ -588,12 +607,33 @@ func (a *OrderAnalysis) propagate(f *Fn, g *Graph, sd taintSeed, seeds *[]taintS
 			return ok
 		},
 		Hit: func(n ast.Node) bool {
-			if !mentionsTarget(n) {
+			mentionsRoot := false
+			if strings.Contains(sd.path, ".") && !sd.elem {
+				InspectNoLit(n, func(m ast.Node) bool {
+					if id, ok := m.(*ast.Ident); ok && f.ObjOf(id) == sd.target {
+						// a bare use of the root (not the start of a longer selector chain)
+						if _, isSel := f.Prog.Parent(id).(*ast.SelectorExpr); !isSel {
+							mentionsRoot = true
+						}
+					}
+					return true
+				})
+			}
+			if !mentionsTarget(n) && !mentionsRoot {
 				return false
 			}
 			switch s := n.(type) {
 			case *ast.ReturnStmt:
 				for _, e := range s.Results {
+					// the tainted slice is a field (path) of a value that is returned as a whole
+					if !isTarget(e) && strings.Contains(sd.path, ".") && f.RootObj(e) == sd.target {
+						if _, isID := ast.Unparen(e).(*ast.Ident); isID {
+							a.Findings = append(a.Findings, OrderFinding{Fn: f, Target: sd.path, Kind: "store", Pos: s.Pos(), Loop: sd.loop,
+								Detail: "field " + sd.path + " holds a slice in map iteration order when the value is returned"})
+							escaped = true
+							continue
+						}
+					}
 					if isTarget(e) {
 						a.Returns[f] = true
 						sanitised = false
@@ -642,6 +682,12 @@ func (a *OrderAnalysis) propagate(f *Fn, g *Graph, sd taintSeed, seeds *[]taintS
 						return true
 					}
 					for _, arg := range call.Args {
+						if id, isID := ast.Unparen(arg).(*ast.Ident); isID && strings.Contains(sd.path, ".") && f.ObjOf(id) == sd.target && !a.orderInsensitiveCall(f, call) {
+							a.Findings = append(a.Findings, OrderFinding{Fn: f, Target: sd.path, Kind: "call", Pos: call.Pos(), Loop: sd.loop,
+								Detail: "field " + sd.path + " holds a slice in map iteration order when the value is passed to " + types.ExprString(call.Fun)})
+							escaped = true
+							continue
+						}
 						if isTarget(arg) && !a.orderInsensitiveCall(f, call) {
 							a.Findings = append(a.Findings, OrderFinding{Fn: f, Target: sd.path, Kind: "call", Pos: call.Pos(), Loop: sd.loop,
 								Detail: "a slice in map iteration order is passed to " + types.ExprString(call.Fun) + " without being sorted"})
@@ -654,6 +700,27 @@ func (a *OrderAnalysis) propagate(f *Fn, g *Graph, sd taintSeed, seeds *[]taintS
 			return false
 		}}
 	w.Run()
+	// the tainted slice is a field of non-local storage (receiver / parameter): if a normal
+	// exit is reachable without sorting it, the field stays in map order for other functions
+	if !sd.elem && strings.Contains(sd.path, ".") {
+		if v, ok := sd.target.(*types.Var); ok && (f.Recv() == v || isParamVar(f, v)) {
+			ex := (&Walk{G: g, From: sd.from, HitExit: true, Stop: func(n ast.Node) bool { return f.sanitises(n, isTarget) }}).Run()
+			if ex.Found {
+				// find the field object of the path's last selector
+				InspectNoLit(f.Body, func(n ast.Node) bool {
+					if se, ok := n.(*ast.SelectorExpr); ok && types.ExprString(se) == sd.path {
+						if s := f.Info().Selections[se]; s != nil {
+							if fv, ok := s.Obj().(*types.Var); ok {
+								a.TaintedFields[fv] = true
+							}
+						}
+					}
+					return true
+				})
+				sanitised = false
+			}
+		}
+	}
 	// ranging over the tainted slice propagates the taint into the loop body
 	InspectNoLit(f.Body, func(n ast.Node) bool {
 		rs, ok := n.(*ast.RangeStmt)
@@ -710,6 +777,20 @@ func (a *OrderAnalysis) orderInsensitiveCall(f *Fn, call *ast.CallExpr) bool {
 		full == "slices.Contains", full == "fmt.Errorf", full == "fmt.Sprintf" && false,
 		strings.HasPrefix(full, "(github.com/go-kit/log"), strings.HasPrefix(full, "github.com/go-kit/log"):
 		return true
+	}
+	return false
+}
+
+func isParamVar(f *Fn, v *types.Var) bool {
+	if f.Type == nil || f.Type.Params == nil {
+		return false
+	}
+	for _, fl := range f.Type.Params.List {
+		for _, n := range fl.Names {
+			if f.Info().Defs[n] == types.Object(v) {
+				return true
+			}
+		}
 	}
 	return false
 }
